@@ -20,12 +20,12 @@ SIMNOTE = "Trusted: Coq kernel, ExtrOcamlBasic extraction, OCaml driver, Python 
 CLAIMS.update({
  "C01": dict(
     text="Coq theorems about Sim.v for every bench, state, command and schedule: the queue invariant 'every pending action is due strictly after now' is established by init and kept by every command; time never decreases; only step/step_until move it; a successful step_until ends at its target; a step moves to a pending non-cancelled deadline within the bound and leaves nothing due behind (c01_command, c01_init, c01_time_monotone_pending_future, c01_step, c01_run_keeps_time). Tie: same benches on the real Simulation (1..16 threads) and the extracted model, exact log comparison for schedule-independent benches, multiset comparison otherwise; direct oracles (time monotone, handler sees step time, driver events fire exactly at deadline in order).",
-    note=SIMNOTE + "Hypothesis r <> RHang (stepping loop termination) is discharged only through C08's witnesses; fire-order across different deadlines is implied by the per-step statements, not stated as one trace theorem.",
+    note=SIMNOTE + "The stepping loop is proved to terminate (no RHang, c01_all_reachable_states is unconditional); fire order within a critical section is a theorem (c07_fired_in_key_epoch_order), across steps it follows from time monotonicity; it is not restated as one trace theorem.",
     technique="Coq proof (inductive invariant over commands and run steps) + differential bench correspondence + direct oracles",
     ref="DESIGN.md §5 C01, §4.4"),
  "C08": dict(
     text="Coq theorems: a request of any kind is accepted iff deadline > now and the (checked) period is non-null, a rejected request changes nothing, an accepted one adds exactly one entry at its deadline/origin with the next epoch; requests and all run steps keep the 'pending strictly in the future' invariant, so an accepted occurrence cannot be fired late or dropped by a stepping call that returns; refutation witness for the pinned tree (zero-period source action: step never returns) and its repair. Tie: malformed-input stream x all request kinds from driver and handlers, watch-dogged stepping calls, on 1..8 threads.",
-    note=SIMNOTE + "Partial: the race between Scheduler handles on other threads and step() is modelled at lock granularity (requests are atomic steps); real-thread histories are not yet linearised against the model; a general termination bound for the stepping loop is not proved (known defect F4 fixed; witnesses in Properties/C08.v).",
+    note=SIMNOTE + "The race between Scheduler handles on other threads and step() is modelled at lock granularity (requests are atomic steps of Sim.v) and checked on real threads: requests gated inside Deadline::into_time must agree with one of the two linearisations of the model (part C08-threaded-requests); termination of every stepping call is a theorem (c08_step_returns); known defect F4 fixed (witness in Properties/C08.v).",
     technique="Coq proof (request specification + invariant) + refutation witness by vm_compute + differential bench correspondence",
     ref="DESIGN.md §5 C08"),
  "C11": dict(
@@ -61,7 +61,7 @@ CLAIMS.update({
 CLAIMS.update({
  "C03": dict(
     text="Coq theorems for all inputs: a send creates exactly one delivery per accepting connection with the mapped value (c03_deliveries_of_send); a delivery appends exactly that message to exactly the target mailbox, only when there is room (c03_delivery_enqueues_once); the owner consumes exactly the head of its mailbox (c03_start_consumes_once); the sender does not move on before all deliveries are made (c03_send_completes_before_next_op); in-flight counter = number of queued messages in every reachable state and Ok iff all mailboxes are empty (c03_conservation, c03_ok_means_all_consumed). Tie: bursts of 1..3x capacity into mailboxes of capacity 1..16 through plain/map/filter_map connections, sources, queries; multiset comparison with Sim.v on 1..16 threads + closure oracle (processed = sent per accepting connection) on the implementation.",
-    note=SIMNOTE + "Partial: the trace-level multiset equality is not one Coq theorem (no ghost sent/processed sets in the model); it is decided on the implementation by the oracle.",
+    note=SIMNOTE + "Trace level: c03_mailbox_trace (nothing lost, duplicated, reordered or invented in any execution) and c03_ok_means_all_consumed; the multiset 'sent = processed per recipient' is derived from them in prose, and decided on the implementation by the oracle.",
     technique="Coq proof (per-step lemmas + counting invariant) + differential bench correspondence + closure oracle",
     ref="DESIGN.md §5 C03"),
  "C04": dict(
@@ -98,7 +98,7 @@ CLAIMS.update({
 CLAIMS.update({
  "C02": dict(
     text="Coq theorems for all inputs and schedules: in every step a mailbox stays as it is, loses its head or gains one message at its tail (c02_mailbox_order_step), a handler does not start its next port operation while a delivery is outstanding (c02_program_order), a delivery needs room and appends (c02_enqueue_at_tail); computed instance: the documented A->B, A->C->B triangle with capacity-1 mailboxes under every choice list of length <= 4. Tie: triangle benches (optional relay, 1-5 roots, capacities 1..3) on 1..16 threads vs Sim.v + causal-order oracle at B.",
-    note=SIMNOTE + "PARTIAL: the trace-level happens-before theorem (ghost causal pasts) is not mechanised; the general property is decided on the implementation by the oracle for the generated family only.",
+    note=SIMNOTE + "The trace-level statement is c02_mailbox_trace (+ _run): in ANY execution a mailbox is its initial content followed by the messages enqueued into it in enqueue order, minus the prefix consumed by its owner; together with c02_program_order (a handler's next port operation waits for the enqueue of the current one) this is the causal order of the property, because in the interleaving semantics 'the send of M1 happens before the send of M3' implies 'M1 is enqueued before M3'; the happens-before relation itself is not a Coq definition.",
     technique="Coq proof (per-step FIFO lemmas + computed instance) + differential bench correspondence + causal oracle",
     ref="DESIGN.md §5 C02, §0"),
  "C05": dict(
@@ -108,7 +108,7 @@ CLAIMS.update({
     ref="DESIGN.md §5 C05"),
  "C13": dict(
     text="Coq theorems: the invariant of TaskSM.v holds in every state reachable from spawn / spawn_and_forget under any sequence of handle operations by any number of wakers/threads (c13_invariant_*, c13_step: one preservation lemma per operation, 18 in all); its meaning (c13_meaning): single poller, no poll after end, Runnable exists iff POLLING and (wake count <> 0 or CLOSED) - so a wake while pending always leaves a Runnable -, refs = live handles, future dropped <= 1, output dropped/taken <= 1, memory freed <= 1, no access after free, no leak; layout lemmas against the constants regenerated from task.rs (c13_initial_words). Tie: handle-operation scripts for 2-3 threads over scripted futures on the verbatim task.rs under the deterministic scheduler (all schedule prefixes up to a bound on the 8 loom scenario shapes + random), oracle with drop counters, poll flags and a quarantine allocator.",
-    note=DNOTE + "PARTIAL: TaskSM is coarse (one step = one read-modify-write + its dependent release effects; run() and the idle-cancel path split at every RMW): interleavings inside the release effects and weak-memory behaviours are not covered; real traces are judged by the oracle, not replayed step by step in the model; counter saturation excluded.",
+    note=DNOTE + "PARTIAL: TaskSM is coarse (one step = one read-modify-write + its dependent release effects; run() and the idle-cancel path split at every RMW): interleavings inside the release effects and weak-memory behaviours are not covered; every explored real trace is also replayed operation by operation in the extracted TaskSM (state word after every read-modify-write, enabledness, final drop/dealloc counts); counter saturation excluded.",
     technique="Coq proof (inductive invariant, case analysis + lia per operation) + T1 constant translation + oracle-judged scheduled exploration on mirrored source",
     ref="DESIGN.md §5 C13, Appendix B"),
  "C14": dict(
@@ -118,7 +118,7 @@ CLAIMS.update({
     ref="DESIGN.md §5 C14"),
  "C19": dict(
     text="Coq theorems (task level): in every reachable state of TaskSM the invariant holds, and once every handle is gone the memory has been freed exactly once, the future dropped exactly once, nothing accessed after release (c19_cancel_releases, c19_no_leak_no_double_free) - cancellation racing with wakers and a runner is what an executor drop does to each task. Tie: cancel-heavy schedules on the verbatim task.rs; the Simulation is dropped at the end of fault / deadlock / hierarchy / scheduling benches (pending actions, blocked senders, pending queries) on 1..16 threads: every added model dropped exactly once, no model code afterwards, the drop returns (watchdog).",
-    note=DNOTE + "PARTIAL: the executor-level drop (ExecDrop: models, queued messages and pending futures each released once) is not modelled, only observed through drop counts of models; message payloads and pending futures are not drop-counted; joining of worker threads is observed as 'drop returns'.",
+    note=DNOTE + "PARTIAL: the executor-level drop (ExecDrop: models, queued messages and pending futures each released once) is not modelled, only observed: drop counts of models and of undelivered messages, and the allocator balance (live bytes must return to the same level when the same bench is built, run and dropped three times in one process - a leaked future, payload or task shows as growth); joining of worker threads is observed as 'drop returns'.",
     technique="Coq proof (task-level invariant corollaries) + scheduled exploration on mirrored source + drop-count observation on benches",
     ref="DESIGN.md §5 C19"),
 })
